@@ -162,6 +162,19 @@ let std_value_quiet t b =
   | Some m -> (match of_msg t m with Some r -> canon (quiet t r) | None -> "err:not-representable")
   | None -> "err"
 
+(* hypothesis zz_ok of the refinement theorem (defined in a proof file, hence restated here for the run-time check
+   of the theorem's claim only): no zigzag tag on a field whose type is a struct or a pointer to a struct *)
+let rec base_ty0 t = match t with TPtr t' -> base_ty0 t' | _ -> t
+let rec zz_struct_ok (t : gty) : bool =
+  match t with
+  | TPtr t' | TSlice t' -> zz_struct_ok t'
+  | TMap (k, v) -> zz_struct_ok k && zz_struct_ok v
+  | TStruct fs ->
+      List.for_all (fun f -> match f with GField (_, tag, ft) ->
+        let zz = (match tag with Some tg -> tg.tag_zigzag | None -> false) in
+        not (zz && (match base_ty0 ft with TStruct _ -> true | _ -> false)) && zz_struct_ok ft) fs
+  | _ -> true
+
 let starts_with p s = String.length s >= String.length p && String.sub s 0 (String.length p) = p
 
 let c12_run fn argstr =
@@ -184,7 +197,7 @@ let c12_run fn argstr =
         (* the claim of unmarshal_refines_statement, checked on this input: whenever the package dialect of the
            transcribed decoder accepts, the model of the package decoder returns the same value *)
         let p =
-          if plain t && tags_sane t && type_ok t && numbers_ok (codec_of t) then
+          if plain t && tags_sane t && zz_struct_ok t && type_ok t && numbers_ok (codec_of t) then
             (match spec_decode pkgd (fields_of t) b with
              | Some m ->
                  (match of_msg t m with
